@@ -5,6 +5,7 @@ import (
 	"os"
 	"reflect"
 	"runtime"
+	"sort"
 	"strings"
 	"time"
 
@@ -110,7 +111,8 @@ type OpResult struct {
 	Text         BStr     `json:"text,omitempty"` // err.Error()
 	Line         uint     `json:"line,omitempty"`
 	ErrFile      string   `json:"err_file,omitempty"`
-	Injected     int      `json:"injected,omitempty"` // id when the returned error IS an injected error value
+	Injected     int      `json:"injected,omitempty"`     // id when the returned error IS an injected error value
+	InjectedIDs  []int    `json:"injected_ids,omitempty"` // all injected errors the returned value is identical to
 	Rest         []BStr   `json:"rest,omitempty"`
 	Out          BStr     `json:"out,omitempty"`
 	OutCalls     int      `json:"out_calls,omitempty"`
@@ -268,6 +270,7 @@ func (c *RunCtx) callee(kind, who string, args []string) error {
 			if simrt.W != nil {
 				simrt.W.Stat("fault.callee." + kind)
 			}
+			break // the first plan entry for this call decides
 		}
 	}
 	if simrt.W != nil {
@@ -516,16 +519,26 @@ func classifyErr(err error, res *OpResult) {
 	res.Text = BStr(errText(err))
 	// is it, by identity, an error value a callee was made to return?
 	if cur != nil {
-		for id, inj := range cur.errs {
-			if err == inj {
-				res.Err = "injected"
-				res.Injected = id
-				res.Msg = BStr(errText(err))
-				if fe, ok := err.(*flags.Error); ok && fe != nil {
-					res.ErrType = fe.Type.String()
-				}
-				return
+		// (in id order: two typed-nil errors are equal as interface values, so several
+		// ids may match; all of them are recorded)
+		ids := make([]int, 0, len(cur.errs))
+		for id := range cur.errs {
+			ids = append(ids, id)
+		}
+		sort.Ints(ids)
+		for _, id := range ids {
+			if err == cur.errs[id] {
+				res.InjectedIDs = append(res.InjectedIDs, id)
 			}
+		}
+		if len(res.InjectedIDs) > 0 {
+			res.Err = "injected"
+			res.Injected = res.InjectedIDs[0]
+			res.Msg = BStr(errText(err))
+			if fe, ok := err.(*flags.Error); ok && fe != nil {
+				res.ErrType = fe.Type.String()
+			}
+			return
 		}
 	}
 	switch e := err.(type) {
